@@ -75,4 +75,19 @@ def section_tables():
             w("//@ ensures imp(mlrval.IsIntVal(input1), isI(result, -old(iv(input1))))")
             w("//@ ensures imp(mlrval.IsFloatVal(input1), isF(result, -old(fv(input1))))")
         w()
+    # is_* predicates: one classification (the mvtype) behind all of them
+    w("//@ properties C06 C08 C18")
+    K = "mlrval.VKind(input1)"
+    preds = {
+      "absent": f"{K} == mlrval.MT_ABSENT", "error": f"{K} == mlrval.MT_ERROR", "bool": f"{K} == mlrval.MT_BOOL", "boolean": f"{K} == mlrval.MT_BOOL",
+      "bytes": f"{K} == mlrval.MT_BYTES", "float": f"{K} == mlrval.MT_FLOAT", "int": f"{K} == mlrval.MT_INT", "map": f"{K} == mlrval.MT_MAP",
+      "array": f"{K} == mlrval.MT_ARRAY", "numeric": f"({K} == mlrval.MT_INT || {K} == mlrval.MT_FLOAT)", "present": f"{K} != mlrval.MT_ABSENT",
+      "string": f"({K} == mlrval.MT_STRING || {K} == mlrval.MT_VOID)", "notmap": f"{K} != mlrval.MT_MAP", "notarray": f"{K} != mlrval.MT_ARRAY",
+      "null": f"({K} == mlrval.MT_ABSENT || {K} == mlrval.MT_VOID || {K} == mlrval.MT_NULL)",
+      "notnull": f"!({K} == mlrval.MT_ABSENT || {K} == mlrval.MT_VOID || {K} == mlrval.MT_NULL)",
+      "empty": f"{K} == mlrval.MT_VOID", "notempty": f"({K} != mlrval.MT_ABSENT && {K} != mlrval.MT_VOID)",
+    }
+    for n, e in preds.items():
+        w(f"//@ func BIF_is_{n}"); w("//@ requires mlrval.WFT(input1)"); w("//@ modifies nothing")
+        w(f"//@ ensures mlrval.IsBoolVal(result) && mlrval.VBool(result) == ({e})"); w()
     return "\n".join(o)
